@@ -50,10 +50,26 @@ theorem noDominancePresent_iff (x y : List Int) :
     noDominancePresent x y = true ↔ dominates x y = false ∧ dominates y x = false := by
   simp [noDominancePresent, dominancePresent]
 
+/-- `IsComparable` (between `Float64Vector`s) holds exactly for vectors of the same length — the
+hypothesis `hl` of the theorems above -/
+theorem isComparable_iff (x y : List Int) : isComparable x y = true ↔ x.length = y.length := by
+  simp [isComparable]
+
+/-- without comparability the model's zipped walk ignores the surplus components (the Go code indexes the
+argument with the receiver's range instead and panics when the argument is shorter: outside the property,
+which speaks of vectors of one length; the correspondence suite compares unequal lengths on
+`IsComparable` only) -/
+theorem dominates_ignores_surplus (x y s : List Int) (hl : x.length = y.length) :
+    dominates x (y ++ s) = dominates x y ∧ dominates (x ++ s) y = dominates x y := by
+  simp only [dominates, (anyGreater_append x y s hl).1, (anyGreater_append x y s hl).2,
+    (anyLess_append x y s hl).1, (anyLess_append x y s hl).2, and_self]
+
 /-! Non-vacuity and sanity examples (tests, labelled as such). -/
 example : dominates [1, 2, 3] [1, 3, 3] = true := by decide
 example : dominates [1, 2, 3] [1, 2, 3] = false := by decide
 example : dominates [0, 5] [1, 4] = false ∧ dominates [1, 4] [0, 5] = false := by decide
 example : noDominancePresent [0, 5] [1, 4] = true := by decide
+example : isComparable [1, 2] [1, 2, 3] = false ∧ isComparable [] [] = true := by decide
+example : dominates [1, 2] [1, 3, 0] = true := by decide
 
 end Crem.Dominance
